@@ -228,8 +228,12 @@ def validate_shards(module, cfg, shards, env_key="TRACE", jobs=None, timeout=180
     def one(p):
         ev = dict(env or {})
         ev[env_key] = os.path.abspath(p)
-        return p, tlc(module, cfg, env=ev, workers=1, timeout=timeout, heap=heap,
-                      tag="%s-%s" % (module, os.path.basename(p)))
+        r = tlc(module, cfg, env=ev, workers=1, timeout=timeout, heap=heap, tag="%s-%s" % (module, os.path.basename(p)))
+        if r.infra_failure and r.rc != 124:
+            # not a verdict (parse error, OOM, JVM trouble): repeat once before giving up
+            log("TLC infrastructure failure on %s (rc %d), retrying once" % (os.path.basename(p), r.rc))
+            r = tlc(module, cfg, env=ev, workers=1, timeout=timeout, heap=heap, tag="%s-%s-retry" % (module, os.path.basename(p)))
+        return p, r
     with cf.ThreadPoolExecutor(max_workers=jobs) as ex:
         return list(ex.map(one, shards))
 
@@ -327,6 +331,11 @@ class Verdict:
                     break
             sys.stdout.flush()
             return 1
+        if self.infra:
+            # nothing was refuted, but part of the exploration could not be carried out: say so loudly
+            print("INFRASTRUCTURE-FAILURE property=%s %d part(s) not validated: %s" % (self.pid, len(self.infra), self.infra[0][:200].replace("\n", " ")))
+            sys.stdout.flush()
+            return 2
         return 0
 
 
